@@ -363,9 +363,16 @@ def finish(prop_id, tier, seed, meta, results, wall):
         prop_id, tier, seed, evaluations, len(sigs), len(violations), wall))
     if classes:
         print("classes: " + ", ".join("%s=%d" % kv for kv in sorted(classes.items())))
+    shown = 0
     for path, v in vlines:
+        if v["kind"] in seen_kinds and shown >= 3:
+            continue
+        seen_kinds.add(v["kind"])
+        shown += 1
         print("  %s: %s" % (v["kind"], v["msg"][:800]))
         print("VIOLATION property=%s replay=%s" % (prop_id, path))
+    if len(vlines) > shown:
+        print("  (+%d more violating shards, replay files in %s)" % (len(vlines) - shown, os.path.join(HOME, "replays", prop_id)))
     if vlines:
         return 1
     if errors:
